@@ -77,14 +77,15 @@ class V1MPM(MessageProcessingModel[V1EncodingResult, TV1SecModel]):
 
         reject_indefinite_length(whole_msg)
         decoded, _ = decode(whole_msg, enforce_type=Sequence)
-        _, _, pdu = decoded
+        msg = self.security_model.process_incoming_message(decoded, credentials)
 
         # Because PDUs are lazy, we need to trigger the readout of the PDU
         # value. Otherwise, any error-response is hidden, causing cryptic
-        # errors.
-        pdu.value
+        # errors. This must not happen before the security model has seen the
+        # message: the error-status of a message with a foreign community is
+        # none of our business.
+        msg.value
 
-        msg = self.security_model.process_incoming_message(decoded, credentials)
         return msg
 
 
